@@ -201,23 +201,42 @@ def compute_dyadic_downscaling(info, source_scale_index, downscaler,
             "for downscaling (to scale %s)", old_key, new_key
         )
 
-    half_chunk = [osz // f
-                  for osz, f in zip(old_chunk_size, downscaling_factors)]
-    chunk_fetch_factor = [nsz // hc
-                          for nsz, hc in zip(new_chunk_size, half_chunk)]
+    def load_old_region(xmin, xmax, ymin, ymax, zmin, zmax):
+        """Assemble a region of the old scale from all chunks it intersects.
 
-    def load_and_downscale_old_chunk(z_idx, y_idx, x_idx):
-        xmin = old_chunk_size[0] * x_idx
-        xmax = min(old_chunk_size[0] * (x_idx + 1), old_size[0])
-        ymin = old_chunk_size[1] * y_idx
-        ymax = min(old_chunk_size[1] * (y_idx + 1), old_size[1])
-        zmin = old_chunk_size[2] * z_idx
-        zmax = min(old_chunk_size[2] * (z_idx + 1), old_size[2])
-        old_chunk_coords = (xmin, xmax, ymin, ymax, zmin, zmax)
-
-        chunk = chunk_reader.read_chunk(old_key, old_chunk_coords)
-
-        return downscaler.downscale(chunk, downscaling_factors)
+        No assumption is made on the relationship between the old and new
+        chunk sizes.
+        """
+        region = np.empty(
+            [num_channels, zmax - zmin, ymax - ymin, xmax - xmin],
+            dtype=dtype
+        )
+        for x_idx, y_idx, z_idx in np.ndindex(
+                ceil_div(xmax, old_chunk_size[0]) - xmin // old_chunk_size[0],
+                ceil_div(ymax, old_chunk_size[1]) - ymin // old_chunk_size[1],
+                ceil_div(zmax, old_chunk_size[2]) - zmin // old_chunk_size[2]):
+            cxmin = old_chunk_size[0] * (xmin // old_chunk_size[0] + x_idx)
+            cxmax = min(cxmin + old_chunk_size[0], old_size[0])
+            cymin = old_chunk_size[1] * (ymin // old_chunk_size[1] + y_idx)
+            cymax = min(cymin + old_chunk_size[1], old_size[1])
+            czmin = old_chunk_size[2] * (zmin // old_chunk_size[2] + z_idx)
+            czmax = min(czmin + old_chunk_size[2], old_size[2])
+            chunk = chunk_reader.read_chunk(
+                old_key, (cxmin, cxmax, cymin, cymax, czmin, czmax)
+            )
+            # Intersection of the chunk with the requested region
+            ixmin, ixmax = max(cxmin, xmin), min(cxmax, xmax)
+            iymin, iymax = max(cymin, ymin), min(cymax, ymax)
+            izmin, izmax = max(czmin, zmin), min(czmax, zmax)
+            region[:,
+                   izmin - zmin:izmax - zmin,
+                   iymin - ymin:iymax - ymin,
+                   ixmin - xmin:ixmax - xmin] = chunk[
+                       :,
+                       izmin - czmin:izmax - czmin,
+                       iymin - cymin:iymax - cymin,
+                       ixmin - cxmin:ixmax - cxmin]
+        return region
 
     chunk_range = (ceil_div(new_size[0], new_chunk_size[0]),
                    ceil_div(new_size[1], new_chunk_size[1]),
@@ -234,70 +253,18 @@ def compute_dyadic_downscaling(info, source_scale_index, downscaler,
         zmin = new_chunk_size[2] * z_idx
         zmax = min(new_chunk_size[2] * (z_idx + 1), new_size[2])
         new_chunk_coords = (xmin, xmax, ymin, ymax, zmin, zmax)
-        new_chunk = np.empty(
-            [num_channels, zmax - zmin, ymax - ymin, xmax - xmin],
-            dtype=dtype
+        # The new chunk is computed from the region of the old scale that it
+        # covers, downscaled in one go.
+        new_chunk = downscaler.downscale(
+            load_old_region(
+                downscaling_factors[0] * xmin,
+                min(downscaling_factors[0] * xmax, old_size[0]),
+                downscaling_factors[1] * ymin,
+                min(downscaling_factors[1] * ymax, old_size[1]),
+                downscaling_factors[2] * zmin,
+                min(downscaling_factors[2] * zmax, old_size[2])),
+            downscaling_factors
         )
-        new_chunk[:, :half_chunk[2], :half_chunk[1],
-                  :half_chunk[0]] = (
-                      load_and_downscale_old_chunk(
-                          z_idx * chunk_fetch_factor[2],
-                          y_idx * chunk_fetch_factor[1],
-                          x_idx * chunk_fetch_factor[0]))
-        if new_chunk.shape[1] > half_chunk[2]:
-            new_chunk[:, half_chunk[2]:, :half_chunk[1],
-                      :half_chunk[0]] = (
-                          load_and_downscale_old_chunk(
-                              z_idx * chunk_fetch_factor[2] + 1,
-                              y_idx * chunk_fetch_factor[1],
-                              x_idx * chunk_fetch_factor[0]))
-        if new_chunk.shape[2] > half_chunk[1]:
-            new_chunk[:, :half_chunk[2], half_chunk[1]:,
-                      :half_chunk[0]] = (
-                          load_and_downscale_old_chunk(
-                              z_idx * chunk_fetch_factor[2],
-                              y_idx * chunk_fetch_factor[1] + 1,
-                              x_idx * chunk_fetch_factor[0]))
-        if (new_chunk.shape[1] > half_chunk[2]
-                and new_chunk.shape[2] > half_chunk[1]):
-            new_chunk[:, half_chunk[2]:, half_chunk[1]:,
-                      :half_chunk[0]] = (
-                          load_and_downscale_old_chunk(
-                              z_idx * chunk_fetch_factor[2] + 1,
-                              y_idx * chunk_fetch_factor[1] + 1,
-                              x_idx * chunk_fetch_factor[0]))
-        if new_chunk.shape[3] > half_chunk[0]:
-            new_chunk[:, :half_chunk[2], :half_chunk[1],
-                      half_chunk[0]:] = (
-                          load_and_downscale_old_chunk(
-                              z_idx * chunk_fetch_factor[2],
-                              y_idx * chunk_fetch_factor[1],
-                              x_idx * chunk_fetch_factor[0] + 1))
-        if (new_chunk.shape[1] > half_chunk[2]
-                and new_chunk.shape[3] > half_chunk[0]):
-            new_chunk[:, half_chunk[2]:, :half_chunk[1],
-                      half_chunk[0]:] = (
-                          load_and_downscale_old_chunk(
-                              z_idx * chunk_fetch_factor[2] + 1,
-                              y_idx * chunk_fetch_factor[1],
-                              x_idx * chunk_fetch_factor[0] + 1))
-        if (new_chunk.shape[2] > half_chunk[1]
-                and new_chunk.shape[3] > half_chunk[0]):
-            new_chunk[:, :half_chunk[2], half_chunk[1]:,
-                      half_chunk[0]:] = (
-                          load_and_downscale_old_chunk(
-                              z_idx * chunk_fetch_factor[2],
-                              y_idx * chunk_fetch_factor[1] + 1,
-                              x_idx * chunk_fetch_factor[0] + 1))
-        if (new_chunk.shape[1] > half_chunk[2]
-                and new_chunk.shape[2] > half_chunk[1]
-                and new_chunk.shape[3] > half_chunk[0]):
-            new_chunk[:, half_chunk[2]:, half_chunk[1]:,
-                      half_chunk[0]:] = (
-                          load_and_downscale_old_chunk(
-                              z_idx * chunk_fetch_factor[2] + 1,
-                              y_idx * chunk_fetch_factor[1] + 1,
-                              x_idx * chunk_fetch_factor[0] + 1))
 
         chunk_writer.write_chunk(
             new_chunk.astype(dtype), new_key, new_chunk_coords
